@@ -144,6 +144,22 @@ CLAIMED = {
              "pairs per family, port byte-swapped both ways and nothing else, family constants agree; get_native_size and to_native's guard "
              "use the same structure sizes; text path restricted to numeric hosts with the addrinfo result freed on every path. " + DECIDES % "C17",
         technique="guard dataflow lower bounds against record layouts, sibling field-pair agreement, constant-table agreement"),
+    "C18": dict(
+        text="Rules C18.1-C18.5 over every function of the 37 analysed units that acquires a resource (every allocation site is treated "
+             "as able to fail): no acquisition result is dereferenced or passed to a dereferencing libc function before its NULL test; "
+             "on every failure exit everything acquired earlier in the call is released, returned or owned by an object that is released "
+             "through its typed free (wrapper releasers, success-ownership of constructors and constant-argument reachability are "
+             "summarised from the code); nothing is used, re-released or returned after its release; fresh objects handed to the silent "
+             "list functions are reported (7 known findings); no raw allocator call outside pmem.c. The frame condition on pre-existing "
+             "objects is not decided. " + DECIDES % "C18",
+        technique="path-sensitive resource typestate with inferred acquire/release/ownership summaries; use-after-release typestate; who-may-call rule with positive control"),
+    "C20": dict(
+        text="Rules C20.1-C20.5: ownership table inferred from the constructors (fields filled from acquiring calls) checked against each "
+             "object's free function; every descriptor/handle obtained in a function is closed once, owned by the returned object or "
+             "returned on every path, and never closed twice; munmap gets the mapped length; allocations held only in locals are released "
+             "on every path including success paths; IPC names are unlinked by the free path exactly when owned and the ownership flag is "
+             "set before any later step of the creation can fail. /proc-level accounting over call sequences is not decided. " + DECIDES % "C20",
+        technique="inferred ownership table vs. release sets of free functions; path-sensitive resource typestate for handles and temporaries; guard dataflow for the ownership flag"),
 }
 
 NOT_YET = "check not yet armed (framework under construction); see DESIGN.md section 4 for the planned structural clauses"
